@@ -81,6 +81,71 @@ func vExpMatchesRef(x vExp, e tEv) bool {
 	return true
 }
 
+func vExpMatchesRefBin(x vExp, e rEv) bool {
+	if e.depth != x.depth || e.typ != x.typ || e.null != x.null || e.hasField != x.hasField || len(e.ann) != len(x.ann) {
+		return false
+	}
+	if x.hasField && !(e.field.known && e.field.text == x.field) {
+		return false
+	}
+	for i := range x.ann {
+		if !(e.ann[i].known && e.ann[i].text == x.ann[i]) {
+			return false
+		}
+	}
+	if x.null {
+		return true
+	}
+	switch x.typ {
+	case BoolType:
+		return e.b == x.b
+	case IntType:
+		m := rStripZeros(e.mag)
+		if x.bigv != nil {
+			want := new(big.Int).SetBytes(m)
+			if e.neg {
+				want.Neg(want)
+			}
+			return want.Cmp(x.bigv) == 0
+		}
+		mag, fits := refUint(m)
+		if !fits {
+			return false
+		}
+		if x.isU {
+			return !e.neg && mag == x.u
+		}
+		if x.i < 0 {
+			return e.neg && mag == uint64(-x.i)
+		}
+		return !e.neg && mag == uint64(x.i)
+	case StringType:
+		return string(e.bs) == x.s
+	case ClobType, BlobType:
+		return vSameBytes(e.bs, x.bs)
+	case SymbolType:
+		return e.sym.known && e.sym.text == x.sym
+	case DecimalType:
+		coef, exp := x.dec.CoEx()
+		if e.dexpBig || e.dexp != int64(exp) {
+			return false
+		}
+		mag, fits := refUint(e.mag)
+		if !fits {
+			return false
+		}
+		if coef.Sign() == 0 {
+			return mag == 0 && e.neg == x.dec.isNegZero
+		}
+		v := int64(mag)
+		if e.neg {
+			v = -v
+		}
+		return coef.IsInt64() && coef.Int64() == v
+	}
+	return true
+}
+
 func vExpMatchesReader(x vExp, g vEv) bool {
 	if g.depth != x.depth || g.typ != x.typ || g.null != x.null || g.accErr || g.annErr || g.field.err {
 		return false
@@ -145,7 +210,10 @@ func H_C01_text() {
 	if shape == 15 {
 		shared = []SharedSymbolTable{NewSharedSymbolTable("t1", 1, []string{"a", "b"})}
 	}
-	if pretty {
+	binary := vparam("binary", 0) == 1 // the same shapes through the binary Writer (decoded by refBinDecode)
+	if binary {
+		w = NewBinaryWriter(out, shared...)
+	} else if pretty {
 		w = NewTextWriterOpts(out, TextWriterPretty, shared...)
 	} else {
 		w = NewTextWriter(out, shared...)
@@ -284,6 +352,19 @@ func H_C01_text() {
 		chk(w.WriteInt(5))
 		chk(w.WriteSymbol(vTok("b")))
 		want = []vExp{{typ: IntType, i: 5, ann: []string{a}}, {typ: SymbolType, sym: "b"}}
+	case 16:
+		// an annotated lob whose length sits on the length-encoding boundaries (13/14, 127/128)
+		n := []int{13, 14, 127, 128, 130}[vnondetInt(0, 4)]
+		bs := make([]byte, n)
+		for i := range bs {
+			bs[i] = byte(i)
+		}
+		bs[0] = vnondetU8()
+		a := utf8Text()
+		chk(w.Annotation(vTok(a)))
+		chk(w.WriteBlob(bs))
+		chk(w.WriteInt(3))
+		want = []vExp{{typ: BlobType, bs: bs, ann: []string{a}}, {typ: IntType, i: 3}}
 	default:
 		v := new(big.Int).SetBytes([]byte{0x01, 0x23, 0x45, 0x67, 0x89, 0xAB, 0xCD, 0xEF, 0x01, 0x80}) // a concrete 73-bit value (symbolic big values: binary mode, C13)
 		if vnondetBool() {
@@ -295,6 +376,36 @@ func H_C01_text() {
 	vassert(okw, "every write succeeds")
 	vassert(w.Finish() == nil, "Finish succeeds")
 	enc := out.buf
+
+	if binary {
+		// C04: well-formed, self-contained binary under the independent decoder, which recovers the values written
+		var cat []rShared
+		if shape == 15 {
+			cat = []rShared{{"t1", 1, []string{"a", "b"}}}
+		}
+		d, ok := refBinDecode(enc, cat)
+		vassert(ok, "binary output is well-formed under the independent decoder")
+		vassert(!d.undef, "every symbol ID used is defined by the stream")
+		if !d.unsure {
+			us := d.user()
+			vassert(len(us) == len(want), "the independent decoder finds exactly the values written")
+			for i := range want {
+				vassert(vExpMatchesRefBin(want[i], us[i]), "the independent decoder recovers each written value")
+			}
+			vcover("ref")
+		}
+		r := NewReaderCat(&vChunkSrc{data: enc, failAt: -1}, NewCatalog(shared...))
+		var got []vEv
+		stepErr := vTraverse(r, 0, 8, false, &got)
+		vassert(!stepErr && r.Err() == nil, "written binary is read without error")
+		vassert(len(got) == len(want), "the same number of values is read back")
+		for i := range want {
+			vassert(vExpMatchesReader(want[i], got[i]), "each value survives the binary round trip")
+		}
+		vobserve("len", uint64(len(enc)))
+		vcover("end")
+		return
+	}
 
 	// C04: the output is Ion text under the independent parser, which recovers the values written
 	evs, ok, unsure := refTextParse(enc)
